@@ -1206,6 +1206,61 @@ def recycled_id_probe(chk: core.Check) -> None:
                           sorted(bad), sorted(set(bad.values()))))
 
 
+def cached_callback_probe(chk: core.Check) -> None:
+    """The sweep hands the failure callback the failed trial; RetryFailedTrialCallback extends that trial's retry_history in
+    place while it builds the retry.  With a cached storage (every `storage=RDBStorage(...)` study) the failed trial can
+    already sit in the process-wide cache when the callback fetches it: a sibling thread's read of the study lands between the
+    FAIL write and the callback.  What the sweeping process reports afterwards must still agree with the database: trial 1 is
+    the retry of [0], trial 2 of [0, 1] (each dead trial is retried at most once, with the right lineage)."""
+    import threading
+
+    from sqlalchemy import text
+
+    from optuna.storages import RetryFailedTrialCallback
+
+    url = "sqlite:///" + os.path.join(chk.tmp, "cachedcb_%d.db" % os.getpid())
+    backend = RDBStorage(url, heartbeat_interval=60, grace_period=120, failed_trial_callback=RetryFailedTrialCallback(max_retry=5))
+    study = optuna.create_study(storage=backend, study_name="s")
+
+    def die(trial: Any) -> None:
+        trial.suggest_float("x", 0.0, 1.0)
+        backend.record_heartbeat(trial._trial_id)
+        with backend.engine.begin() as c:
+            c.execute(text("UPDATE trial_heartbeats SET heartbeat = datetime(CURRENT_TIMESTAMP, '-3600 seconds') WHERE trial_id = :t"), {"t": trial._trial_id})
+
+    die(study.ask())
+    optuna.storages.fail_stale_trials(study)
+    t1 = study.ask()
+    die(t1)
+    original = backend.set_trial_state_values
+
+    def hooked(trial_id: int, state: Any, values: Any = None) -> bool:
+        done = original(trial_id, state=state, values=values)
+        if done and state == optuna.trial.TrialState.FAIL:
+            th = threading.Thread(target=lambda: study.get_trials(deepcopy=False))   # the sibling thread's read
+            th.start()
+            th.join()
+        return done
+
+    backend.set_trial_state_values = hooked  # type: ignore[method-assign]
+    try:
+        optuna.storages.fail_stale_trials(study)
+    finally:
+        backend.set_trial_state_values = original  # type: ignore[method-assign]
+    seen = [[t.state.name, RetryFailedTrialCallback.retry_history(t), t.system_attrs.get("failed_trial")] for t in study.get_trials(deepcopy=False)]
+    truth = [[t.state.name, RetryFailedTrialCallback.retry_history(t), t.system_attrs.get("failed_trial")] for t in optuna.load_study(study_name="s", storage=RDBStorage(url)).get_trials(deepcopy=False)]
+    chk.case({"part": "cached-callback-probe"}, nontrivial=True)
+    chk.count("cached-callback-probe")
+    want = [["FAIL", [], None], ["FAIL", [0], 0], ["WAITING", [0, 1], 0]]
+    if truth != want:
+        chk.violation({"kind": "retry-lineage", "scenario": "cached-callback", "where": "database"}, {"part": "cached-callback-probe", "seen": seen, "truth": truth},
+                      "retry chain 0 -> 1 -> 2 swept with a sibling read between the FAIL write and the callback: the database holds %s, expected %s" % (truth, want))
+    elif seen != truth:
+        chk.violation({"kind": "retry-lineage", "scenario": "cached-callback", "where": "sweeping-process"}, {"part": "cached-callback-probe", "seen": seen, "truth": truth},
+                      "retry chain 0 -> 1 -> 2 swept with a sibling read between the FAIL write and the callback: the sweeping process reports %s but the database holds %s "
+                      "(the callback was handed the cached trial object and changed it in place)" % (seen, truth))
+
+
 def search(chk: core.Check) -> None:
     """Failing-input search after a breakage: many more schedules; only the model-independent oracle matters."""
     c19_rdb.search(chk)  # boundary ages / retry arithmetic on the SQL side first (cheap, deterministic)
@@ -1234,6 +1289,7 @@ def main(chk: core.Check) -> int:
     c19_rdb.correspond(chk, chk.tier)  # the SQL side: relational heartbeat model vs RDBStorage, virtual database clock
     timezone_probe(chk)  # real clocks, workers in other time zones
     recycled_id_probe(chk)  # heartbeat rows of a deleted study vs SQLite's re-issued trial ids
+    cached_callback_probe(chk)  # the failure callback must not be handed (and edit) the cached trial object
     free_race(chk)
     chk.assumptions += [
         "one storage call = one atomic step: RDBStorage.set_trial_state_values changes the state with one conditional UPDATE (SQLite/SQLAlchemy statement + transaction semantics are trusted); the gated tie serialises calls, the free-running thread/process races sample the real interleavings without the model",
